@@ -935,6 +935,19 @@ def _np_where(I, st, pos, kws, node):
             st.assume(z3.Implies(z3.And(incx, incc, inb),
                                  z3.And(Lw == C.length, z3.ForAll([i], z3.Implies(z3.And(i >= 0, i < Lw), W[i] == to_int(C.elem(i))), patterns=[W[i]]))))
             I.assumed.add("derived library lemma: np.where(np.isin(x, x.take(c)))[0] == c for strictly increasing x and c")
+        else:
+            # DERIVED LIBRARY LEMMA (assumed, validated differentially): for strictly increasing X and V with every V[j] a member
+            # of X, np.where(np.isin(X, V))[0] lists the positions of V[0], V[1], ... in X, in that order
+            a_, b_ = z3.Int(fresh_name("i")), z3.Int(fresh_name("j"))
+            incx = z3.ForAll([a_, b_], z3.Implies(z3.And(a_ >= 0, a_ < b_, b_ < X.length), to_real(X.elem(a_)) < to_real(X.elem(b_))))
+            incv = z3.ForAll([a_, b_], z3.Implies(z3.And(a_ >= 0, a_ < b_, b_ < V.length), to_real(V.elem(a_)) < to_real(V.elem(b_))))
+            mem = z3.ForAll([b_], z3.Implies(z3.And(b_ >= 0, b_ < V.length),
+                                             z3.Exists([a_], z3.And(a_ >= 0, a_ < X.length, to_real(X.elem(a_)) == to_real(V.elem(b_))))))
+            st.assume(z3.Implies(z3.And(incx, incv, mem),
+                                 z3.And(Lw == V.length,
+                                        z3.ForAll([i], z3.Implies(z3.And(i >= 0, i < Lw), to_real(X.elem(W[i])) == to_real(V.elem(i))), patterns=[W[i]]))))
+            I.assumed.add("derived library lemma: np.where(np.isin(x, v))[0] lists the positions in x of v[0], v[1], ... for strictly "
+                          "increasing x and v with every v[j] a member of x")
     return [(st, TupV([ref]))]
 
 
